@@ -507,7 +507,26 @@ def _default_set_call(case):
 
 
 def _check_default_set(case):
-    return _default_set_call(case)[0]
+    d, numofq, op = case["d"], case["numofq"], case["onlypositive"]
+    want = sqref.default_vectors_large(d, numofq, op) if case.get("large") else sqref.default_vectors(d, numofq, op)
+    got = arr(f"choosewavevector({d}, {numofq}, {op!r})", choosewavevector(d, numofq, op), ndim=2)
+    require(got.shape[1] == d or got.shape[0] == 0, f"choosewavevector({d}, {numofq}, {op!r}): shape {got.shape}")
+    require(got.size == 0 or np.all(got == np.rint(got)), "non-integer wave vectors")
+    rows = sorted(tuple(int(c) for c in r) for r in got.reshape(-1, d).tolist())
+    if rows != want:
+        extra = sorted(set(rows) - set(want))[:6]
+        missing = sorted(set(want) - set(rows))[:6]
+        rep = len(rows) - len(set(rows))
+        raise Violation(f"choosewavevector({d}, {numofq}, {op!r}): {len(rows)} vectors, expected {len(want)}; "
+                        f"unexpected {extra}, missing {missing}, repeated {rep}")
+    return want
+
+
+# large ranges (a membership test that is exact for small norms only -- float comparison, tolerance, int32 squares --
+# shows from a half width of a few hundred on; the repository's own tests reach 159 in 2D and 83 in 3D)
+LARGE = {"quick": {2: [100, 159, 256, 334, 400, 700], 3: [48, 83, 100]},
+         "thorough": {2: [64, 100, 159, 200, 256, 333, 334, 400, 512, 700, 1000, 1500, 2000, 3000],
+                      3: [32, 48, 64, 83, 100, 150, 200, 280, 300]}}
 
 
 def enum_default_vectors(tier):
@@ -528,10 +547,29 @@ def enum_default_vectors(tier):
                              "tags": [f"d{d}", f"onlypositive={op!r}", "odd" if numofq % 2 else "even",
                                       "empty" if not want else "nonempty",
                                       "has-offaxis" if any(sum(1 for c in v if c) > 1 for v in want) else "axis-only"]}
+    # the two references agree where both are affordable (guards the vectorised one used for the large ranges)
+    for d, numofq, op in [(2, 37, False), (2, 40, True), (3, 17, "z"), (3, 20, False), (2, 33, "y")]:
+        if sqref.default_vectors(d, numofq, op) != sqref.default_vectors_large(d, numofq, op):
+            raise RuntimeError(f"harness: reference implementations of the default set disagree at {(d, numofq, op)}")
+    for d in (2, 3):
+        for numofq in LARGE[tier][d]:
+            for op in [False, True, "x"] + (["z"] if d == 3 else ["y"]):
+                case = {"d": d, "numofq": numofq, "onlypositive": op, "large": True}
+                try:
+                    want = _check_default_set(case)
+                except Violation as v:
+                    v.case = case
+                    raise
+                except Exception as e:  # noqa: BLE001
+                    e.case = case
+                    raise
+                yield case, {"nontrivial": True, "tags": [f"d{d}", f"onlypositive={op!r}", "large-range",
+                                                          "half-width>=150" if numofq >= 300 else "half-width<150"]}
 
 
 _enum = Facet("default_vectors", check=enum_default_vectors, exhaustive=True,
-              rule="every (d, numofq, onlypositive) with d in {2,3}, numofq 2..40 (2D) / 2..24 (3D) [thorough: 120 / 48], "
+              rule="every (d, numofq, onlypositive) with d in {2,3}, numofq 2..40 (2D) / 2..24 (3D) [thorough: 120 / 48], plus "
+                   "large ranges numofq up to 700 (2D) / 100 (3D) [thorough: 3000 / 300]; "
                    "onlypositive in False, True, 'x', 'y', ('z' in 3D): the returned rows equal, without repeats, all "
                    "non-zero integer vectors in [-floor(numofq/2), floor(numofq/2))^d with integer norm, filtered as "
                    "documented; non-trivial = the expected set is not empty")
